@@ -271,8 +271,8 @@ package stick
 // (the children of a body are walked by a plain range loop over node.All(): slice order, each once - code shape)
 //@   at "s.walk(c)" child: c != nil
 // C06: an if node walks its body exactly when the condition is truthy, else its else-part
-//@   at "s.walk(node.Body)" then: truthspec(v)
-//@   at "s.walk(node.Else)" otherwise: !truthspec(v) && node.Else != nil
+//@   at "s.walk(node.Body)" then: truthspec(v) && istype(old(node), "*parse.IfNode") && node == unbox(old(node), "*parse.IfNode")
+//@   at "s.walk(node.Else)" otherwise: !truthspec(v) && node.Else != nil && istype(old(node), "*parse.IfNode") && node == unbox(old(node), "*parse.IfNode")
 //@   propagates
 //@   ensures wfail: wfail() && !old(wfail()) ==> err != nil
 //@   ensures order: wafterfail() ==> old(wafterfail()) || old(wfail())
@@ -388,8 +388,12 @@ package stick
 //@   loop 3 invariant frame: xinv(s) && s.scope == old(s.scope) && len(s.scope.scopes) == old(len(s.scope.scopes)) && (forall i trig :: 0 <= i && i < len(s.scope.scopes) ==> s.scope.scopes[i] == old(s.scope.scopes[i])) && s.name == old(s.name) && s.current == old(s.current) && s.env == old(s.env) && len(s.blocks) >= old(len(s.blocks)) && (forall p trig :: allocated(p) && p != old(s.scope) ==> fld("stick.scopeStack", "scopes", p) == old(fld("stick.scopeStack", "scopes", p))) && s.out == old(s.out) && (forall w trig :: allocated(w) && w != ref(old(s.out)) ==> rbuflen(w) == old(rbuflen(w)) && rbufdata(w) == old(rbufdata(w))) && (wfail() ==> old(wfail())) && openfiles() == old(openfiles()) && (wafterfail() ==> old(wafterfail()) || old(wfail()))
 
 //@ func stick.(*state).walkUseNode
+// C09/C11: every execution of the statement evaluates the template name and loads that template now (nothing is
+// remembered from an earlier execution of the statement)
+//@   asserts loaded: err == nil ==> called("s.evalExpr(node.Tpl)") && called("s.env.load(tpl)")
 // C09: the used template's blocks are inserted just above the last table of the chain (for an extending template:
 // below its own blocks, above its ancestors'); every other table keeps its place
+//@   asserts own: err == nil ==> fresh(tree)
 //@   asserts rank: err == nil ==> len(s.blocks) == l + 1 && s.blocks[l] == lb && s.blocks[l - 1] == blocks
 //@   propagates
 //@   ensures wfail: wfail() && !old(wfail()) ==> err != nil
@@ -410,6 +414,8 @@ package stick
 //@   loop 1 invariant frame: xinv(s) && s.scope == old(s.scope) && len(s.scope.scopes) == old(len(s.scope.scopes)) && (forall i trig :: 0 <= i && i < len(s.scope.scopes) ==> s.scope.scopes[i] == old(s.scope.scopes[i])) && s.name == old(s.name) && s.current == old(s.current) && s.env == old(s.env) && len(s.blocks) >= old(len(s.blocks)) && (forall p trig :: allocated(p) && p != old(s.scope) ==> fld("stick.scopeStack", "scopes", p) == old(fld("stick.scopeStack", "scopes", p))) && s.out == old(s.out) && (forall w trig :: allocated(w) ==> rbuflen(w) == old(rbuflen(w)) && rbufdata(w) == old(rbufdata(w))) && (wfail() ==> old(wfail())) && openfiles() == old(openfiles()) && (wafterfail() ==> old(wafterfail()) || old(wfail()))
 
 //@ func stick.(*state).walkSetNode
+// C12: the executor never marks a value safe by itself (only the raw / escape filters and the host do)
+//@   never "NewSafeValue(" nosafe
 // C08: a set..endset capture assigns exactly what the body wrote into the private buffer
 //@   at "s.scope.Set(node.Name, v)" captured: istype(node.X, "*parse.BodyNode") ==> istype(v, "string") && unbox(v, "string") == bufstr(s.out) && fresh(ref(s.out))
 //@   propagates
@@ -474,6 +480,9 @@ package stick
 //@   loop 1 invariant frame: xinv(s) && s.scope == old(s.scope) && len(s.scope.scopes) == old(len(s.scope.scopes)) && (forall i trig :: 0 <= i && i < len(s.scope.scopes) ==> s.scope.scopes[i] == old(s.scope.scopes[i])) && s.name == old(s.name) && s.current == old(s.current) && s.env == old(s.env) && len(s.blocks) >= old(len(s.blocks)) && (forall p trig :: allocated(p) && p != old(s.scope) ==> fld("stick.scopeStack", "scopes", p) == old(fld("stick.scopeStack", "scopes", p))) && (forall w trig :: allocated(w) ==> rbuflen(w) == old(rbuflen(w)) && rbufdata(w) == old(rbufdata(w))) && (wfail() ==> old(wfail())) && openfiles() == old(openfiles()) && (wafterfail() ==> old(wafterfail()) || old(wfail()))
 
 //@ func stick.(*state).walkImportNode
+// C09/C11: every execution of the statement evaluates the template name and loads that template now (nothing is
+// remembered from an earlier execution of the statement)
+//@   asserts loaded: err == nil ==> called("s.evalExpr(node.Tpl)") && called("s.env.load(CoerceString(tpl))")
 //@   propagates
 //@   ensures wfail: wfail() && !old(wfail()) ==> err != nil
 //@   ensures order: wafterfail() ==> old(wafterfail()) || old(wfail())
@@ -493,6 +502,9 @@ package stick
 //@   loop 1 invariant frame: xinv(s) && s.scope == old(s.scope) && len(s.scope.scopes) == old(len(s.scope.scopes)) && (forall i trig :: 0 <= i && i < len(s.scope.scopes) ==> s.scope.scopes[i] == old(s.scope.scopes[i])) && s.name == old(s.name) && s.current == old(s.current) && s.env == old(s.env) && len(s.blocks) >= old(len(s.blocks)) && (forall p trig :: allocated(p) && p != old(s.scope) ==> fld("stick.scopeStack", "scopes", p) == old(fld("stick.scopeStack", "scopes", p))) && s.out == old(s.out) && (forall w trig :: allocated(w) ==> rbuflen(w) == old(rbuflen(w)) && rbufdata(w) == old(rbufdata(w))) && (wfail() ==> old(wfail())) && openfiles() == old(openfiles()) && (wafterfail() ==> old(wafterfail()) || old(wfail()))
 
 //@ func stick.(*state).walkFromNode
+// C09/C11: every execution of the statement evaluates the template name and loads that template now (nothing is
+// remembered from an earlier execution of the statement)
+//@   asserts loaded: err == nil ==> called("s.evalExpr(node.Tpl)") && called("s.env.load(CoerceString(tpl))")
 // C11: each imported name must exist in the loaded template; it is registered under its alias
 //@   at "errors.New(\"undefined macro \" + name)" missing: !in(macros, name)
 //@   propagates
@@ -514,8 +526,13 @@ package stick
 //@   loop 1 invariant frame: xinv(s) && s.scope == old(s.scope) && len(s.scope.scopes) == old(len(s.scope.scopes)) && (forall i trig :: 0 <= i && i < len(s.scope.scopes) ==> s.scope.scopes[i] == old(s.scope.scopes[i])) && s.name == old(s.name) && s.current == old(s.current) && s.env == old(s.env) && len(s.blocks) >= old(len(s.blocks)) && (forall p trig :: allocated(p) && p != old(s.scope) ==> fld("stick.scopeStack", "scopes", p) == old(fld("stick.scopeStack", "scopes", p))) && s.out == old(s.out) && (forall w trig :: allocated(w) ==> rbuflen(w) == old(rbuflen(w)) && rbufdata(w) == old(rbufdata(w))) && (wfail() ==> old(wfail())) && openfiles() == old(openfiles()) && (wafterfail() ==> old(wafterfail()) || old(wfail()))
 
 //@ func stick.(*state).evalExpr
+// C12: the executor never marks a value safe by itself (only the raw / escape filters and the host do)
+//@   never "NewSafeValue(" nosafe
 // C05: one value clause per operator / literal arm, against the spec functions of the coercions (numspec, strspec,
 // truthspec: C15): the operator table of the language
+// C04/C05: a binary node is evaluated from the values of its own two operands (the tree decides the grouping: there is
+// no way out of the binary arm that has not evaluated both)
+//@   asserts@*parse.BinaryExpr operands: err == nil ==> called("s.evalExpr(exp.Left)") && called("s.evalExpr(exp.Right)")
 //@   asserts@parse.OpBinaryAdd val: r1 == nil && istype(r0, "float64") && unbox(r0, "float64") == numspec(left) + numspec(right)
 //@   asserts@parse.OpBinarySubtract val: r1 == nil && istype(r0, "float64") && unbox(r0, "float64") == numspec(left) - numspec(right)
 //@   asserts@parse.OpBinaryMultiply val: r1 == nil && istype(r0, "float64") && unbox(r0, "float64") == numspec(left) * numspec(right)
@@ -524,6 +541,12 @@ package stick
 //@   asserts@parse.OpBinaryGreaterThan val: r1 == nil && istype(r0, "bool") && unbox(r0, "bool") == (numspec(left) > numspec(right))
 //@   asserts@parse.OpBinaryLessEqual val: r1 == nil && istype(r0, "bool") && unbox(r0, "bool") == (numspec(left) <= numspec(right))
 //@   asserts@parse.OpBinaryLessThan val: r1 == nil && istype(r0, "bool") && unbox(r0, "bool") == (numspec(left) < numspec(right))
+// C05/C06: a range is a new sequence (nothing else refers to it: a for loop over it cannot be disturbed by a later range) of
+// |r - l| + 1 numbers that starts at the left operand and steps by one towards the right operand
+//@   asserts@parse.OpBinaryRange val: r1 == nil ==> istype(r0, "[]float64") && unbox(r0, "[]float64") == res && fresh(ref(res)) && len(res) >= 1
+//@   asserts@parse.OpBinaryRange val2: r1 == nil ==> l == numspec(left) && r == numspec(right)
+//@   asserts@parse.OpBinaryRange val3: r1 == nil ==> (forall j :: 0 <= j && j < len(res) ==> res[j] == l + j * step) && step == ite(r < l, 0 - 1, 1)
+//@   loop 1 invariant fill: fresh(ref(res)) && len(res) >= 1 && step == ite(r < l, 0 - 1, 1) && (forall j :: 0 <= j && j <= rangeindex ==> res[j] == l + j * step)
 //@   asserts@parse.OpBinaryAnd val: r1 == nil && istype(r0, "bool") && unbox(r0, "bool") == (truthspec(left) && truthspec(right))
 //@   asserts@parse.OpBinaryOr val: r1 == nil && istype(r0, "bool") && unbox(r0, "bool") == (truthspec(left) || truthspec(right))
 //@   asserts@parse.OpBinaryEqual val: r1 == nil && istype(r0, "bool") && unbox(r0, "bool") == (strspec(left) == strspec(right))
@@ -553,6 +576,9 @@ package stick
 //@   at "s.callMacro(macroDef{macro}, args...)" self: len(args) == len(exargs) && macro != nil
 //@   at "s.callMacro(macro, args...)" imported: len(args) == len(exargs) && istype(c, "macroSet")
 //@   at "errors.New(\"undefined macro: \" + CoerceString(k))" unknown: istype(c, "macroSet")
+// C11: a name that is a macro of the receiver never falls through to the plain attribute lookup - whatever the
+// number of arguments (the three call forms agree)
+//@   at "GetAttr(c, k, args...)" notmacro: !istype(c, "macroSet") && !(istype(c, "selfValue") && in(s.localMacros, strspec(k)))
 // (the lookup error of GetAttr is discarded by design: missing attributes render empty, C16)
 //@   propagates except GetAttr(, errors.New("undefinedvariable
 //@   ensures wfail: wfail() && !old(wfail()) ==> err != nil
@@ -578,6 +604,12 @@ package stick
 //@   loop 5 invariant frame: xinv(s) && s.scope == old(s.scope) && len(s.scope.scopes) == old(len(s.scope.scopes)) && (forall i trig :: 0 <= i && i < len(s.scope.scopes) ==> s.scope.scopes[i] == old(s.scope.scopes[i])) && s.name == old(s.name) && s.current == old(s.current) && s.env == old(s.env) && len(s.blocks) >= old(len(s.blocks)) && (forall p trig :: allocated(p) && p != old(s.scope) ==> fld("stick.scopeStack", "scopes", p) == old(fld("stick.scopeStack", "scopes", p))) && s.out == old(s.out) && (forall w trig :: allocated(w) ==> rbuflen(w) == old(rbuflen(w)) && rbufdata(w) == old(rbufdata(w))) && (wfail() ==> old(wfail())) && openfiles() == old(openfiles()) && (wafterfail() ==> old(wafterfail()) || old(wfail()))
 
 //@ func stick.(*state).evalFunction
+// C12: the executor never marks a value safe by itself (only the raw / escape filters and the host do)
+//@   never "NewSafeValue(" nosafe
+// C08/C09: block(name) and parent() render the block's body at this point of the evaluation, every time (the value is
+// the text rendered now, under the variables of now - not a remembered one)
+//@   asserts@"block" rendered: err == nil ==> called("s.walkBlockBody(blk)")
+//@   asserts@"parent" rendered: err == nil ==> called("s.walkBlockBody(blk)")
 // C05: a registered function is called once, with one evaluated value per argument expression
 //@   at "fn(s, args...)" call: len(args) == len(eargs) && fn != nil && !old(in(s.macros, fnName))
 // C11: a from-imported macro reaches callMacro the same way
@@ -604,6 +636,8 @@ package stick
 //@   loop 3 invariant frame: xinv(s) && s.scope == old(s.scope) && len(s.scope.scopes) == old(len(s.scope.scopes)) && (forall i trig :: 0 <= i && i < len(s.scope.scopes) ==> s.scope.scopes[i] == old(s.scope.scopes[i])) && s.name == old(s.name) && s.current == old(s.current) && s.env == old(s.env) && len(s.blocks) >= old(len(s.blocks)) && (forall p trig :: allocated(p) && p != old(s.scope) ==> fld("stick.scopeStack", "scopes", p) == old(fld("stick.scopeStack", "scopes", p))) && s.out == old(s.out) && (forall w trig :: allocated(w) ==> rbuflen(w) == old(rbuflen(w)) && rbufdata(w) == old(rbufdata(w))) && (wfail() ==> old(wfail())) && openfiles() == old(openfiles()) && (wafterfail() ==> old(wafterfail()) || old(wfail()))
 
 //@ func stick.(*state).evalFilter
+// C12: the executor never marks a value safe by itself (only the raw / escape filters and the host do)
+//@   never "NewSafeValue(" nosafe
 // C05: a registered filter is called once; the piped value (first argument expression) comes first
 //@   at "fn(s, args[0], args[1:]...)" call: len(args) == len(eargs) && len(args) >= 1 && fn != nil
 //@   propagates
@@ -626,6 +660,8 @@ package stick
 //@   loop 1 invariant frame: xinv(s) && s.scope == old(s.scope) && len(s.scope.scopes) == old(len(s.scope.scopes)) && (forall i trig :: 0 <= i && i < len(s.scope.scopes) ==> s.scope.scopes[i] == old(s.scope.scopes[i])) && s.name == old(s.name) && s.current == old(s.current) && s.env == old(s.env) && len(s.blocks) >= old(len(s.blocks)) && (forall p trig :: allocated(p) && p != old(s.scope) ==> fld("stick.scopeStack", "scopes", p) == old(fld("stick.scopeStack", "scopes", p))) && s.out == old(s.out) && (forall w trig :: allocated(w) ==> rbuflen(w) == old(rbuflen(w)) && rbufdata(w) == old(rbufdata(w))) && (wfail() ==> old(wfail())) && openfiles() == old(openfiles()) && (wafterfail() ==> old(wafterfail()) || old(wfail()))
 
 //@ func stick.(*state).callMacro
+// C12: the executor never marks a value safe by itself (only the raw / escape filters and the host do)
+//@   never "NewSafeValue(" nosafe
 //@   propagates
 // C11: when the body starts, every parameter (the last one of that name, if a name is repeated) is bound in the fresh
 // scope to the argument in the same position, or to null when the call supplies fewer arguments; surplus arguments
@@ -657,6 +693,8 @@ package stick
 //@   loop 1 invariant frame: xinv(s) && s.scope == old(s.scope) && s.name == old(s.name) && s.current == old(s.current) && s.env == old(s.env) && len(s.blocks) >= old(len(s.blocks)) && (forall p trig :: allocated(p) && p != old(s.scope) ==> fld("stick.scopeStack", "scopes", p) == old(fld("stick.scopeStack", "scopes", p))) && s.out == old(s.out) && len(s.scope.scopes) == old(len(s.scope.scopes)) + 1 && (forall i trig :: 0 <= i && i < old(len(s.scope.scopes)) ==> s.scope.scopes[i] == old(s.scope.scopes[i])) && rangeindex >= -1
 
 //@ func stick.(*state).walkBlockBody
+// C12: the executor never marks a value safe by itself (only the raw / escape filters and the host do)
+//@   never "NewSafeValue(" nosafe
 //@   propagates
 // C08/C09: block() and parent() return exactly what the block body wrote into the private buffer; the body is rendered
 // with the block as current block and its defining template as current name (restored afterwards)
@@ -719,6 +757,11 @@ package stick
 //@   propagates
 //@   requires env.Loader != nil
 //@   ensures ok: err == nil ==> r0 != nil && r0.root != nil && len(r0.blocks) >= 1 && r0.macros != nil
+// C09/C18: every load parses a tree of its own (trees are not shared between executions, nor between two places of one
+// execution: the executor writes aliases into the block table of a used template)
+//@   ensures own: err == nil ==> fresh(r0)
+// C17: a tree is only handed out after its own Parse succeeded (a template that fails to parse fails every time)
+//@   asserts parsed: err == nil ==> called("env.Loader.Load(name)") && called("tree.Parse()")
 //@   ensures wframe: forall w trig :: allocated(w) ==> rbuflen(w) == old(rbuflen(w)) && rbufdata(w) == old(rbufdata(w))
 //@   ensures wquiet: wfail() == old(wfail()) && wafterfail() == old(wafterfail())
 // C19: no file opened on behalf of this call is still open when it returns
